@@ -6,7 +6,7 @@ From Coq Require Import ZArith Reals Lra Floats.
 From Flocq Require Import Core BinarySingleNaN.
 From Interval Require Import Tactic.
 From SIDGen Require Generated.
-From SID Require Import Base F64 Vec Quat VecF VecExact OrdMax PointLaws GenEqConst.
+From SID Require Import Base F64 Vec Quat VecF VecExact OrdMax PointLaws GenEqConstMinima.
 Open Scope R_scope.
 
 (* value of a generated decimal constant (m, e), e <= 0 *)
